@@ -236,3 +236,164 @@ Fixpoint sx_expr (e : expr) : sx :=
   end.
 
 Definition sx_grammar (g : env * expr) : sx := SL [sx_expr (snd g); SL (SY "env" :: map sx_expr (fst g))].
+
+(* ------------------------------------------------------------------------------------------- *)
+(* precedence climbing over TOKENS (the oracle of the property), and evaluation of result trees   *)
+(* ------------------------------------------------------------------------------------------- *)
+Inductive itok := INum (s : str) | IOp (s : str) | ILpar | IRpar.
+Inductive ikind := IPostfix | IPrefix | IBinL | IBinR.
+Definition itable := list (ikind * str).          (* tightest level first, one spelling per level *)
+
+Definition is_op (t : option itok) (op : str) : bool :=
+  match t with Some (IOp o) => str_eqb o op | _ => false end.
+
+Section Climb.
+Variable full : itable.
+
+(* `levels` = the levels up to the current one, LOOSEST FIRST (so that recursion peels the current level off) *)
+Fixpoint climb (fuel : nat) (levels : list (ikind * str)) (ts : list itok) : option (tok * list itok) :=
+  match fuel with
+  | 0 => None
+  | S f =>
+    match levels with
+    | [] =>
+      match ts with
+      | INum n :: rest => Some (TStr n, rest)
+      | ILpar :: rest =>
+        match climb f (rev full) rest with
+        | Some (t, IRpar :: rest') => Some (t, rest')
+        | _ => None
+        end
+      | _ => None
+      end
+    | (kind, op) :: tighter =>
+      let operand := climb f tighter in
+      match kind with
+      | IBinL =>
+        match operand ts with
+        | Some (x, rest) =>
+          let fix loop (n : nat) (acc : list tok) (rest : list itok) : list tok * list itok :=
+            match n with
+            | 0 => (acc, rest)
+            | S n' =>
+              if is_op (hd_error rest) op then
+                match operand (tl rest) with
+                | Some (y, rest') => loop n' (acc ++ [TStr op; y]) rest'
+                | None => (acc, rest)
+                end
+              else (acc, rest)
+            end in
+          let '(acc, rest') := loop (List.length ts) [] rest in
+          match acc with [] => Some (x, rest') | _ => Some (TList (x :: acc), rest') end
+        | None => None
+        end
+      | IBinR =>
+        match operand ts with
+        | Some (x, rest) =>
+          if is_op (hd_error rest) op then
+            match climb f levels (tl rest) with
+            | Some (y, rest') => Some (TList [x; TStr op; y], rest')
+            | None => Some (x, rest)
+            end
+          else Some (x, rest)
+        | None => None
+        end
+      | IPrefix =>
+        if is_op (hd_error ts) op then
+          match climb f levels (tl ts) with
+          | Some (y, rest') => Some (TList [TStr op; y], rest')
+          | None => operand ts
+          end
+        else operand ts
+      | IPostfix =>
+        match operand ts with
+        | Some (x, rest) =>
+          let fix loop (n : nat) (acc : list tok) (rest : list itok) : list tok * list itok :=
+            match n with
+            | 0 => (acc, rest)
+            | S n' => if is_op (hd_error rest) op then loop n' (acc ++ [TStr op]) (tl rest) else (acc, rest)
+            end in
+          let '(acc, rest') := loop (List.length ts) [] rest in
+          match acc with [] => Some (x, rest') | _ => Some (TList (x :: acc), rest') end
+        | None => None
+        end
+      end
+    end
+  end.
+End Climb.
+
+(* the whole token list must be consumed *)
+Definition climb_all (table : itable) (ts : list itok) : option tok :=
+  match climb table (4 * (List.length ts + 1) * (List.length table + 2)) (rev table) ts with
+  | Some (t, []) => Some t
+  | _ => None
+  end.
+
+(* value of a decimal numeral *)
+Definition digits_val (s : str) : option Z :=
+  fold_left (fun acc c => match acc with
+                          | Some v => if (N.leb 48 c && N.leb c 57)%bool then Some (10 * v + Z.of_N (c - 48))%Z else None
+                          | None => None end) s (Some 0%Z).
+
+(* arithmetic meaning of the spellings + - * ** (and unary -); other spellings have no value *)
+Definition bin_val (op : str) (a b : Z) : option Z :=
+  match op with
+  | [43%N] => Some (a + b)%Z
+  | [45%N] => Some (a - b)%Z
+  | [42%N] => Some (a * b)%Z
+  | [42%N; 42%N] => if (0 <=? b)%Z then Some (Z.pow a b) else None
+  | _ => None
+  end.
+
+Fixpoint eval_tree (fuel : nat) (t : tok) : option Z :=
+  match fuel with
+  | 0 => None
+  | S f =>
+    match t with
+    | TStr s => digits_val s
+    | TList [TStr [45%N]; x] => match eval_tree f x with Some v => Some (- v)%Z | None => None end
+    | TList (x :: rest) =>
+      (* x op y op z ... : left to right (a right-associative level has exactly one operator per group) *)
+      let fix go (acc : option Z) (l : list tok) : option Z :=
+        match acc, l with
+        | Some a, TStr op :: y :: l' =>
+          match eval_tree f y with Some b => go (bin_val op a b) l' | None => None end
+        | Some a, [] => Some a
+        | _, _ => None
+        end in
+      go (eval_tree f x) rest
+    | _ => None
+    end
+  end.
+
+(* ------------------------------------------------------------------------------------------- *)
+(* the eight (look-ahead sequence, grouped sequence) forms, symbolically: compared with the forms  *)
+(* re-read from the source of infix_notation on every run (Gen/GenInfix.v, tools/translate/gen_infix.py) *)
+(* ------------------------------------------------------------------------------------------- *)
+Inductive gform := GL | GO | GO2 | GT | GSeq (l : list gform) | GPlus (g : gform) | GStar (g : gform) | GOpt (g : gform) | GOther.
+
+Fixpoint gf (e : expr) : gform :=
+  match e with
+  | Tok a _ _ => match nid a with 1 => GL | 2 => GO | 3 => GO2 | _ => GOther end
+  | Fwd _ _ _ => GT
+  | Nary _ _ NAnd es => GSeq (map gf es)
+  | Rep _ _ z b None => if z then GStar (gf b) else GPlus (gf b)
+  | Enh _ _ (EOpt None) c => GOpt (gf c)
+  | _ => GOther
+  end.
+
+Definition forms_of (body : expr) : gform * gform :=
+  match body with
+  | Nary _ _ NMatchFirst (Nary _ _ NAnd [Enh _ _ ELookahead p; Enh _ _ (EGroup false) q] :: _) => (gf p, gf q)
+  | _ => (GOther, GOther)
+  end.
+
+Definition marker (n : nat) : expr :=
+  Tok {| nid := n; rsname := None; modalr := true; aslist := false; skipws := true; white := []; callpre := true;
+         mayidx := false; custom := false; hasmsg := true; acts := []; calltry := false; slen := 0 |} [] KEmpty.
+
+(* in the order of the source: LEFT (arity 1, 2 with operator, 2 without, 3), RIGHT (the same) *)
+Definition model_forms : list (gform * gform) :=
+  map (fun lv => forms_of (snd (mk_level true [] (fun c => (100 + c, 0)) 1 1 (marker 1) true lv)))
+      [LPostfix (marker 2) []; LBinL (marker 2) []; LJuxL []; LTernL (marker 2) (marker 3) [];
+       LPrefix (marker 2) []; LBinR (marker 2) []; LJuxR []; LTernR (marker 2) (marker 3) []].
